@@ -30,7 +30,8 @@ CLAIMS = {
              "any sequence of guarded balancing moves (INC from the source) keeps the vector feasible up to INC/2 per micro-op with "
              "exact total; kernel totals are the column sums over lines with throughput != skip value. Tie: translator (INC, digits, "
              "filter), K1 correspondence of average_port_pressure/get_throughput_sum, K2 trace refinement of the real balancer "
-             "(every recorded mutation replayed as a guarded move), oracle Spec.checkFeasible on uniform/once/twice states.",
+             "(every recorded mutation replayed as a guarded move), oracle Spec.checkFeasible on uniform/once/twice states; the oracle "
+             "itself is proved sound and complete (Props/C01Oracle: checkFeasible_iff, lowerBound_spec).",
         design="5/C01",
         note=COMMON_NOTE + "The balancer's float-noise dependent control flow is modelled relationally. Known finding: state after the "
              "second assign_optimal_throughput call (D12). Modelled not verified: Python floats/round.",
@@ -40,7 +41,9 @@ CLAIMS = {
         text="Theorems for all kernels: per-instruction feasibility (C01) makes the kernel totals a feasible schedule of all micro-ops "
              "(kernel_feasible), and a feasible schedule never undercuts max_S confined(S)/|S| by more than its slack "
              "(lowerBound_le_max, pigeonhole). The 0.15 clause is decided exhaustively on the property's 5355-kernel family by "
-             "executing the real code against the Lean Spec optimum; 'optimised <= uniform' by the same family and random kernels.",
+             "executing the real code against the Lean Spec optimum; 'optimised <= uniform': transfers_bottleneck_mono (any number of "
+             "guarded INC transfers does not raise the rounded bottleneck, under the decidable no-tie hypothesis, with a proved "
+             "counterexample without it) plus the same family and random kernels.",
         design="5/C02",
         note=COMMON_NOTE + "Optimum = max_S confined(S)/|S| as the property defines it (LP duality not proved). 'optimised <= uniform' "
              "on rounded sums is checked on executions, proved only for exact sums (transfer_max_le). Known finding: second pass on "
@@ -81,10 +84,11 @@ CLAIMS = {
              "returns exactly the simple paths), fuel_suffices, lcd_paths_exact; emissions_forward, path_increasing, winding1_sorted "
              "(a path crosses the iteration boundary once; sorted modulo the offset it is ascending); entry_latency, post_dedup, "
              "post_represents; dg_local; lcd_sound / lcd_complete (the reported entries are exactly the winding-number-1 cycles of "
-             "the periodic stream dependency relation, with members and latency sum); lcd_key_collision_free, lcd_reported_once. Tie: "
+             "the periodic stream dependency relation, with members and latency sum); lcd_key_collision_free, lcd_reported_once; "
+             "spec_cycles_iff_lcd (the executable oracle Spec.cycles and the model agree as sets of (lines, latency)). Tie: "
              "get_loopcarried_dependencies vs LCD.lcd incl. start lines ~1000/~5000; oracle: independent Spec.cycles over the "
              "relation of two iterations built by the real create_DG; LCD column and summary figure of the real report.",
-        design="5/C05", note=COMMON_NOTE + "Modelled not verified: networkx path search, parsers and role assignment (taken from the implementation per kernel). Not proved: the link between IsStreamCycle and the executable oracle Spec.cycles (both are evaluated on every kernel).",
+        design="5/C05", note=COMMON_NOTE + "Modelled not verified: networkx path search, parsers and role assignment (taken from the implementation per kernel). Spec.cycles may list a cycle more than once (set-level agreement is what is proved and compared).",
         technique="Lean 4 proof (path-search soundness/completeness, winding argument) + differential correspondence + independent cycle enumeration",
     ),
     "C06": dict(
@@ -102,7 +106,7 @@ CLAIMS = {
              "(scanTarget_append, scanMem_append, window_suffices_all, stream_local), streamDep_rotate' and the C05 characterisation "
              "lcd_sound/lcd_complete. Tie: every rotated kernel through the real code vs LCD.lcd; oracle: the metamorphic relation on "
              "the real code for every rotation offset (cycles mapped to instruction identities).",
-        design="5/C14", note=COMMON_NOTE + "Modelled not verified: networkx path search, parsers and role assignment (taken from the implementation per kernel). Not proved: equality of the *number* of entries (set-level correspondence and uniqueness per member set are).",
+        design="5/C14", note=COMMON_NOTE + "Modelled not verified: networkx path search, parsers and role assignment (taken from the implementation per kernel). lcd_rotation_count: the rotated body reports the same number of entries.",
         technique="Lean 4 proof (stream locality + rotation of the periodic dependency relation) + metamorphic differential validation",
     ),
     "C17": dict(
